@@ -76,6 +76,27 @@ NOINST void operator delete[](void* p) noexcept { vfPoint(false, nullptr); free(
 NOINST void operator delete(void* p, size_t) noexcept { vfPoint(false, nullptr); free(p); }
 NOINST void operator delete[](void* p, size_t) noexcept { vfPoint(false, nullptr); free(p); }
 #endif
+// ---- function-local statics: the C++ runtime's guard would BLOCK the second thread on a futex the scheduler knows nothing about (a thread preempted
+// inside a static's initialiser + another one reaching the same static = a deadlock of the harness, not of the library). The guard is made cooperative:
+// the waiting thread hands the processor to the initialising one (a forced switch, not a counted preemption) and re-checks when it runs again.
+#ifndef VF_FREERUN
+static uint64_t g_guardWaits = 0;
+extern "C" {
+NOINST int __cxa_guard_acquire(uint64_t* g) {
+    volatile unsigned char* b = (volatile unsigned char*)g;
+    for (;;) {
+        if (b[0]) return 0;                                                       // already initialised
+        int me = t_tid;
+        if (!b[1]) { b[1] = (unsigned char)(me >= 0 ? me + 1 : 0x7f); return 1; }   // this thread initialises
+        int owner = (int)b[1] - 1;
+        if (me < 0 || !g_active || owner < 0 || owner >= g_nThreads || owner == me || g_ts[owner].done) { static const char m[] = "VF: static initialiser re-entered or owned outside the scheduler\n"; (void)!::write(2, m, sizeof m - 1); abort(); }
+        g_guardWaits++; switchTo(owner); waitTurn(me);
+    }
+}
+NOINST void __cxa_guard_release(uint64_t* g) { volatile unsigned char* b = (volatile unsigned char*)g; b[1] = 0; b[0] = 1; }
+NOINST void __cxa_guard_abort(uint64_t* g) { volatile unsigned char* b = (volatile unsigned char*)g; b[1] = 0; }
+}
+#endif
 // ---- libc interposition: coarse points ------------------------------------------------------------
 #ifndef VF_FREERUN
 extern "C" {
@@ -114,6 +135,7 @@ static void bodyBuild(const std::string& dir, int variant, Digest& d) {
 static void bodyEdit(const std::string& dir, const std::string& input, Digest& d) {
     OPB; std::unique_ptr<C3D> c; Outcome oc = guarded([&] { c.reset(new C3D(input)); }); d.add(std::string("load ") + outcomeName(oc)); if (oc != OK) return;
     OPB; oc = guarded([&] { c->point("NEWP"); }); d.add(std::string("point ") + outcomeName(oc)); snapTo(d, *c, "column");
+    OPB; oc = guarded([&] { c->analog("newc"); }); d.add(std::string("channel ") + outcomeName(oc)); snapTo(d, *c, "channel");
     OPB; oc = guarded([&] { c->lockGroup("POINT"); Param p("K"); p.set(7); c->parameter("EXTRA", p); }); d.add(std::string("param ") + outcomeName(oc));
     OPB; oc = guarded([&] { (void)c->data().frame(99); }); d.add(std::string("lookup ") + outcomeName(oc));
     OPB; std::string p = dir + "/edited.c3d"; oc = guarded([&] { c->write(p); }); d.add(std::string("save ") + outcomeName(oc)); fileTo(d, p, "file");
@@ -126,7 +148,10 @@ static std::vector<BodyDef> makeBodies(const std::string& scratch) {
     auto mk = [&](const std::string& name, const std::string& choice) { gen::Content c; gen::Layout l; gen::apply(gen::parseChoice(choice), c, l); std::string b = gen::encode(c, l); std::string p = scratch + "/" + name; FILE* f = fopen(p.c_str(), "wb"); fwrite(b.data(), 1, b.size(), f); fclose(f); return p; };
     std::string fA = mk("inA.c3d", "frames=3;events=2"), fA2 = mk("inA2.c3d", "frames=3;events=2"), fB = mk("inB.c3d", "zeros=7;extra=all;values=special"), fC = mk("inC.c3d", "points=3;chans=1;order=paramsFirst");
     std::string fU = mk("inU.c3d", "points=3;labels=fewer;alabels=fewer;frames=3"), fU2 = mk("inU2.c3d", "points=3;chans=3;labels=fewer;alabels=fewer");
+    std::string fM = mk("inM.c3d", "optparams=minimal;chans=1;points=1"), fR = mk("inR.c3d", "optparams=rich;points=1");   // files that lack DIFFERENT optional parameters (the library adds the missing ones when a column is added)
     std::vector<BodyDef> b;
+    b.push_back({"edit(M)", [fM](const std::string& d, Digest& g) { bodyEdit(d, fM, g); }});
+    b.push_back({"edit(R)", [fR](const std::string& d, Digest& g) { bodyEdit(d, fR, g); }});
     b.push_back({"loadsave(U)", [fU](const std::string& d, Digest& g) { bodyLoadSave(d, fU, g); }});
     b.push_back({"loadsave(U')", [fU2](const std::string& d, Digest& g) { bodyLoadSave(d, fU2, g); }});
     b.push_back({"loadsave(A)", [fA](const std::string& d, Digest& g) { bodyLoadSave(d, fA, g); }});
@@ -202,8 +227,8 @@ int main(int argc, char** argv) {
     bool thorough = tier == "thorough";
     std::vector<BodyDef> defs = makeBodies(scratch);
     auto idx = [&](const std::string& n) { for (size_t i = 0; i < defs.size(); ++i) if (defs[i].name == n) return (int)i; return -1; };
-    std::vector<std::vector<int>> groups = {{idx("loadsave(U)"), idx("loadsave(U')")}, {idx("loadsave(A)"), idx("loadsave(A')")}, {idx("loadsave(A)"), idx("build(0)")}, {idx("build(0)"), idx("build(1)")}, {idx("loadsave(B)"), idx("edit(C)")}};
-    if (thorough) { groups.push_back({idx("edit(C)"), idx("build(1)")}); groups.push_back({idx("loadsave(A)"), idx("loadsave(B)")}); groups.push_back({idx("loadsave(A)"), idx("build(0)"), idx("edit(C)")}); }
+    std::vector<std::vector<int>> groups = {{idx("loadsave(U)"), idx("loadsave(U')")}, {idx("loadsave(A)"), idx("loadsave(A')")}, {idx("loadsave(A)"), idx("build(0)")}, {idx("build(0)"), idx("build(1)")}, {idx("loadsave(B)"), idx("edit(C)")}, {idx("edit(M)"), idx("edit(C)")}};
+    if (thorough) { groups.push_back({idx("edit(C)"), idx("build(1)")}); groups.push_back({idx("loadsave(A)"), idx("loadsave(B)")}); groups.push_back({idx("loadsave(A)"), idx("build(0)"), idx("edit(C)")}); groups.push_back({idx("edit(M)"), idx("edit(R)")}); }
     auto jstr = [](const std::string& s) { std::string o = "\""; for (unsigned char ch : s) { if (ch == '"' || ch == '\\') { o += '\\'; o += (char)ch; } else if (ch == '\n') o += "\\n"; else if (ch < 32 || ch > 126) o += '?'; else o += (char)ch; } return o + "\""; };
     auto groupName = [&](const std::vector<int>& g) { std::string s; for (int b : g) { if (!s.empty()) s += " || "; s += defs[(size_t)b].name; } return s; };
 #ifdef VF_FREERUN
